@@ -262,6 +262,9 @@ var verifLoopBodies = []struct{ name, decl, body string }{
 	{"caught-throw-in-builtin-argument", "fn fail(n: int) -> int {\n  if n >= 0 { throw(\"x\"); }\n  return n;\n}\n", "    try { println(fail(i)); } catch e { s += 0; }\n"},
 	{"break-in-call-argument", "fn id(n: int) -> int {\n  return n;\n}\n", "    loop {\n      s += id({ if i >= 0 { break; } 1 });\n    }\n"},
 	{"continue-in-call-argument", "fn id(n: int) -> int {\n  return n;\n}\n", "    s += id({ if i >= 0 { continue; } 1 });\n"},
+	{"null-returning-call-statement", "fn nul() -> null {\n  null\n}\n", "    nul();\n    s += 0;\n"},
+	{"null-literal-statement", "", "    null;\n    s += 0;\n"},
+	{"null-block-statement", "", "    { null };\n    if i >= 0 { null } else { null };\n    s += 0;\n"},
 	{"method-call-argument-throws", "fn fail(n: int) -> int {\n  if n >= 0 { throw(\"x\"); }\n  return n;\n}\n", "    let l = [0];\n    try { l.push(fail(i)); } catch e { s += l.len() - 1; }\n"},
 }
 
